@@ -1,5 +1,18 @@
-// Package c15: correspondence harness for C15 (meta replicas converge; snapshot + restore
-// loses nothing).
+// Package c15: correspondence harness for C15 (meta replicas converge on the same log,
+// through snapshot and restore too).
+//
+// Part A — every registered command type (valid and invalid arguments), real state machine:
+// the same random log is applied to two replicas. Replica B is snapshotted at a random
+// position (the snapshot object is persisted only after a few more commands were applied, as
+// raft does), restored from the bytes, and replays the rest; before every step the entries of
+// every Go map of both replicas are re-inserted in a different shuffled order. Per-command
+// results and canonical dumps must agree at every step (spec diff). At the snapshot position
+// the dump of replica A and the dump of a third replica restored from A's snapshot are sent to
+// the Lean driver (`snap`), which predicts the restored value from the regenerated coverage
+// table (impl-vs-model).
+//
+// Part B — the modelled command subset: log + `snaprestore` against the Lean catalogue model,
+// state compared after every step (`chk`).
 package c15
 
 import (
@@ -13,86 +26,173 @@ import (
 func init() { hx.Register("C15", Run) }
 
 func Run(c *hx.Ctx) error {
-	r := hx.NewRng(c.Seed)
+	// hx.NewRng(s+1) is hx.NewRng(s) advanced by one step; scramble the seed so that consecutive
+	// seeds give unrelated streams
+	r := hx.NewRng(hx.NewRng(c.Seed).U64() ^ 0xC15)
 	nLogs := c.Budget(300, 20000)
 	logLen := 40
 	if c.Tier == "thorough" {
 		logLen = 120
 	}
-	c.Stats.Rule = "log contains a snapshot/restore and a later command that succeeded"
+	c.Stats.Rule = "log with a snapshot/restore strictly inside it and at least one command that succeeded after the restore"
+	c.Emit("transients", "transients "+strings.Join(metax.TransientList(), ","))
+	kinds := map[string]bool{}
 	for li := 0; li < nLogs; li++ {
-		runLog(c, r.Fork(), logLen)
+		fullLog(c, r.Fork(), logLen, kinds)
+	}
+	nModel := nLogs / 2
+	for li := 0; li < nModel; li++ {
+		modelLog(c, r.Fork(), logLen)
+	}
+	// every registered command type must have been exercised (and must be known to the generator)
+	c.Count(fmt.Sprintf("kinds-exercised:%d-of-%d", len(kinds), len(metax.Kinds())))
+	if missing := metax.UngeneratedTypes(); len(missing) > 0 {
+		ln := c.Emit("note registered-types", "note registered-types")
+		c.Violation(ln, "", fmt.Sprintf("registered command types without a generator: %v", missing))
 	}
 	return nil
 }
 
-func runLog(c *hx.Ctx, r *hx.Rng, logLen int) {
+func fullLog(c *hx.Ctx, r *hx.Rng, logLen int, kinds map[string]bool) {
 	u := metax.NewUniverse(r.Fork())
 	ra, rb := r.Fork(), r.Fork()
 	a, b := metax.NewInst(), metax.NewInst()
-	n := 1 + r.Intn(logLen)
-	snapAt := r.Intn(n + 1)
-	var hist []string
-	okAfter := 0
 	var pro []metax.Cmd
 	if r.Chance(85) {
 		pro = metax.Bootstrap(u)
 	}
-	n += len(pro)
-	snapAt = r.Intn(n + 1)
+	n := len(pro) + 1 + r.Intn(logLen)
+	snapAt := r.Intn(n + 1)
+	deferBy := 0
+	if r.Chance(50) {
+		deferBy = 1 + r.Intn(3)
+	}
+	var hist []string
+	var pending []metax.Cmd // commands already drawn (applied to B while its snapshot was outstanding)
+	okAfter := 0
+	header := fmt.Sprintf("note log n=%d snap=%d defer=%d", n, snapAt, deferBy)
+	ln := c.Emit(header, header)
+	noSki := false
+	next := func(i int) metax.Cmd {
+		if len(pending) > 0 {
+			cmd := pending[0]
+			pending = pending[1:]
+			return cmd
+		}
+		if i < len(pro) {
+			return pro[i]
+		}
+		return u.Gen(nil)
+	}
 	for i := 0; i < n; i++ {
 		if i == snapAt {
-			s, err := b.Snapshot()
-			var bytes []byte
-			if err == nil {
-				bytes, err = metax.Persist(s)
+			// pure function check on replica A's state: snapshot -> bytes -> fresh replica
+			if !snapLine(c, a) {
+				return
 			}
+			// replica B: Snapshot now, Persist after `deferBy` further commands were applied
+			// to it, restore from the bytes, then replay those commands with everybody else
+			s, err := b.Snapshot()
+			if err != nil {
+				c.Violation(ln, "", "Snapshot failed: "+err.Error())
+				return
+			}
+			for j := 0; j < deferBy && i+j < n; j++ {
+				cx := next(i + j)
+				pending = append(pending, cx)
+			}
+			for _, cx := range pending {
+				b.ShuffleMaps(rb)
+				if res := b.Apply(cx); res.Panic {
+					break
+				}
+			}
+			bytes, err := metax.Persist(s)
 			if err == nil {
 				err = b.Restore(bytes)
 			}
-			hist = append(hist, "SNAP")
 			if err != nil {
-				ln := c.Emit("note snapshot-failed", "note snapshot-failed")
-				c.Violation(ln, "snapshot_error", err.Error())
+				c.Violation(ln, "", "Persist/Restore failed: "+err.Error())
 				return
 			}
+			hist = append(hist, fmt.Sprintf("SNAPSHOT(persisted %d commands later)+RESTORE", len(pending)))
 		}
-		var cmd metax.Cmd
-		if i < len(pro) {
-			cmd = pro[i]
-		} else {
-			cmd = u.Gen(nil)
+		cmd := next(i)
+		if (cmd.Kind == "CreateMeasurement" || cmd.Kind == "AlterShardKey") && skiAbsent(cmd) {
+			noSki = true
 		}
-		a.ShuffleMaps(ra)
-		b.ShuffleMaps(rb)
-		resA := a.Apply(cmd)
-		resB := b.Apply(cmd)
-		hist = append(hist, cmd.Desc+" => "+resA.String())
-		c.Count("cmd:" + cmd.Kind)
-		if resA.OK {
-			c.Count("ok:" + cmd.Kind)
-			if i >= snapAt {
-				okAfter++
-			}
-		} else if resA.Panic {
-			c.Count("panic:" + cmd.Kind)
-		} else {
-			c.Count("err:" + cmd.Kind)
-		}
-		da, db := a.DumpData(), b.DumpData()
-		sa, sb := da.String(), db.String()
-		ln := c.Emit("note step", "note step")
-		if resA != resB {
-			c.Violation(ln, classify(cmd, hist, nil), fmt.Sprintf("results differ: %s vs %s after %s", resA, resB, strings.Join(tail(hist, 12), " | ")))
-			return
-		}
-		if sa != sb {
-			d := metax.Diff(da, db, 4)
-			c.Violation(ln, classify(cmd, hist, d), fmt.Sprintf("catalogues differ at %s after %s", strings.Join(d, "; "), strings.Join(tail(hist, 12), " | ")))
+		if !stepBoth(c, ln, a, b, ra, rb, cmd, &hist, kinds, &okAfter, i >= snapAt, noSki) {
 			return
 		}
 	}
-	c.Case(strings.Join(hist, "|"), okAfter > 0 && snapAt < n)
+	c.Case(strings.Join(hist, "|"), okAfter > 0 && snapAt > 0 && snapAt < n)
+	if len(c.Stats.Samples) < 2 {
+		c.Sample(strings.Join(tail(hist, 8), " | "))
+	}
+}
+
+func skiAbsent(cmd metax.Cmd) bool {
+	w := strings.Fields(cmd.Text)
+	return len(w) >= 5 && w[4] == "_"
+}
+
+// snapLine: the model's prediction of snapshot+restore on the current value of replica `a`.
+func snapLine(c *hx.Ctx, a *metax.Inst) bool {
+	before := a.DumpData()
+	s, err := a.Snapshot()
+	var bytes []byte
+	if err == nil {
+		bytes, err = metax.Persist(s)
+	}
+	fresh := metax.NewInst()
+	if err == nil {
+		err = fresh.Restore(bytes)
+	}
+	if err != nil {
+		ln := c.Emit("note snapshot-error", "note snapshot-error")
+		c.Violation(ln, "", "Snapshot/Persist/Restore failed: "+err.Error())
+		return false
+	}
+	after := fresh.DumpData()
+	c.Emit("snap "+before.String(), after.String())
+	c.Count("snap-lines")
+	return true
+}
+
+func stepBoth(c *hx.Ctx, ln int, a, b *metax.Inst, ra, rb *hx.Rng, cmd metax.Cmd, hist *[]string, kinds map[string]bool, okAfter *int, afterSnap bool, noSki bool) bool {
+	a.ShuffleMaps(ra)
+	b.ShuffleMaps(rb)
+	resA := a.Apply(cmd)
+	resB := b.Apply(cmd)
+	*hist = append(*hist, cmd.Desc+" => "+resA.String())
+	kinds[cmd.Kind] = true
+	c.Count("cmd:" + cmd.Kind)
+	switch {
+	case resA.OK:
+		c.Count("ok:" + cmd.Kind)
+		if afterSnap {
+			*okAfter++
+		}
+	case resA.Panic:
+		c.Count("panic:" + cmd.Kind)
+	default:
+		c.Count("err:" + cmd.Kind)
+	}
+	if resA != resB {
+		c.Violation(ln, classify(cmd, resA, resB, nil, noSki), fmt.Sprintf("results differ: %s vs %s after %s", resA, resB, strings.Join(tail(*hist, 14), " | ")))
+		return false
+	}
+	if resA.Panic {
+		// both replicas crashed in the same command: the log ends here (C16 records the panic)
+		return false
+	}
+	da, db := a.DumpData(), b.DumpData()
+	if da.String() != db.String() {
+		d := metax.Diff(da, db, 4)
+		c.Violation(ln, classify(cmd, resA, resB, d, noSki), fmt.Sprintf("catalogues differ at %s after %s", strings.Join(d, "; "), strings.Join(tail(*hist, 14), " | ")))
+		return false
+	}
+	return true
 }
 
 func tail(xs []string, n int) []string {
@@ -102,6 +202,123 @@ func tail(xs []string, n int) []string {
 	return xs
 }
 
-func classify(cmd metax.Cmd, hist []string, diff []string) string {
+// classify maps a divergence to the finding class it belongs to ("" = none: a violation).
+func classify(cmd metax.Cmd, ra, rb metax.Result, diff []string, noSki bool) string {
+	all := strings.Join(diff, ";")
+	switch {
+	case cmd.Kind == "UpdateNodeTmpIndex" && diff == nil:
+		return "node_tmp_index_not_in_snapshot"
+	case diff != nil && onlyPaths(diff, ".DataNodes[", ".SqlNodes[") && strings.Contains(all, "].Index:"):
+		return "node_tmp_index_not_in_snapshot"
+	case cmd.Kind == "RecoverMetaData" && diff == nil && (strings.Contains(ra.Err, "nil_map") || strings.Contains(rb.Err, "nil_map")):
+		return "recover_metadata_on_fresh_store"
+	case noSki && diff == nil && (cmd.Kind == "CreateShardGroup" || cmd.Kind == "CreateMeasurement" || cmd.Kind == "AlterShardKey"):
+		return "maporder_measurement_without_shardkey"
+	case diff != nil && strings.Contains(all, ".StartTime:") && strings.Contains(cmd.Text, " -92233720"):
+		return "group_start_before_int64_range"
+	}
 	return ""
+}
+
+func onlyPaths(diff []string, prefixes ...string) bool {
+	for _, d := range diff {
+		ok := false
+		for _, p := range prefixes {
+			if strings.HasPrefix(d, p) {
+				ok = true
+			}
+		}
+		if !ok {
+			return false
+		}
+	}
+	return true
+}
+
+// ---- Part B: modelled subset against the Lean model ---------------------------------------
+
+var kindsModelled = func() []string {
+	var ks []string
+	u := metax.NewUniverse(hx.NewRng(1))
+	u.Modelled = true
+	for _, k := range metax.Kinds() {
+		if u.GenKind(k).Text != "" {
+			ks = append(ks, k)
+		}
+	}
+	return ks
+}()
+
+func modelLog(c *hx.Ctx, r *hx.Rng, logLen int) {
+	u := metax.NewUniverse(r.Fork())
+	u.Modelled = true
+	in := metax.NewInst()
+	c.Emit("reset", "ok")
+	var pro []metax.Cmd
+	if r.Chance(90) {
+		pro = metax.Bootstrap(u)
+	}
+	n := len(pro) + 1 + r.Intn(logLen)
+	snapAt := r.Intn(n + 1)
+	var hist []string
+	for i := 0; i < n; i++ {
+		if i == snapAt {
+			s, err := in.Snapshot()
+			var bytes []byte
+			if err == nil {
+				bytes, err = metax.Persist(s)
+			}
+			if err == nil {
+				err = in.Restore(bytes)
+			}
+			ln := c.Emit("snaprestore", "ok")
+			if err != nil {
+				c.Violation(ln, "", "snapshot/restore failed: "+err.Error())
+				return
+			}
+			c.Emit("chk "+metax.ModelDump(in.Data()), "wf "+verdict(in)+" same")
+			hist = append(hist, "SNAPSHOT+RESTORE")
+		}
+		var cmd metax.Cmd
+		if i < len(pro) {
+			cmd = pro[i]
+		} else {
+			cmd = u.Gen(kindsModelled)
+		}
+		if in.PickMatters(cmd) {
+			c.Count("stop:map-order-pick")
+			break
+		}
+		res := in.Apply(cmd)
+		hist = append(hist, cmd.Text+" => "+res.String())
+		c.Emit("cmd "+cmd.Text, res.String())
+		c.Count("model-cmd:" + cmd.Kind)
+		if res.Panic {
+			break
+		}
+		c.Emit("chk "+metax.ModelDump(in.Data()), "wf "+verdict(in)+" same")
+		if tooManyGroups(in) {
+			break
+		}
+	}
+	c.Case("model|"+strings.Join(hist, "|"), snapAt > 0 && snapAt < n)
+}
+
+func verdict(in *metax.Inst) string {
+	v := metax.WFViolations(in.Data())
+	if len(v) == 0 {
+		return "ok"
+	}
+	return strings.Join(v, ",")
+}
+
+func tooManyGroups(in *metax.Inst) bool {
+	for _, db := range in.Data().Databases {
+		for _, rp := range db.RetentionPolicies {
+			if len(rp.ShardGroups) >= 12 || len(rp.IndexGroups) >= 12 {
+				return true
+			}
+		}
+	}
+	return false
 }
